@@ -107,9 +107,12 @@ Qed.
 Section Loop.
   Variable hor : Z -> list (Z * Z) -> Z.               (* Horner value of the digits so far, in domain pi *)
   Variable dig : Z -> Z -> Z -> Z -> Z.                (* pi ri tmp cki -> new digit *)
+  Variable inr : Z -> Z -> Prop.                       (* inr p m: m is a representative the domain of p hands out *)
+  Hypothesis inr_pos : forall p m, inr p m -> 0 < p.
   Hypothesis hor_ok : forall pi done, 0 < pi -> hor pi done mod pi = mrval (rev done) mod pi.
   Hypothesis dig_ok : forall pi ri tmp cki V P, 0 < pi -> tmp mod pi = V mod pi -> (pi | cki * P - 1) ->
-      0 <= dig pi ri tmp cki < pi /\ (pi | (V + P * dig pi ri tmp cki) - ri).
+      inr pi (dig pi ri tmp cki) /\ (pi | (V + P * dig pi ri tmp cki) - ri).
+  Definition digits_inr (l : list (Z * Z)) : Prop := Forall (fun pm => inr (fst pm) (snd pm)) l.
 
   Fixpoint mr_loop_gen (done : list (Z * Z)) (todo : list (Z * Z * Z)) : list (Z * Z) :=
     match todo with
@@ -131,7 +134,7 @@ Section Loop.
 
   (* done: (p_j, m_j) most recent first;  procd: (p_j, r_j) oldest first *)
   Definition Inv (done procd : list (Z * Z)) : Prop :=
-    map fst (rev done) = map fst procd /\ digits_ok done /\ res_ok (mrval (rev done)) procd.
+    map fst (rev done) = map fst procd /\ digits_inr done /\ res_ok (mrval (rev done)) procd.
 
   Lemma mr_loop_gen_inv : forall todo done procd,
     Inv done procd -> todo_ok (prodp done) todo -> Inv (mr_loop_gen done todo) (procd ++ map fst todo).
@@ -156,7 +159,7 @@ Section Loop.
              { apply in_rev. rewrite <- map_rev, Hp. apply in_map. exact Hin. }
              assert (Hpos : 0 < fst pr).
              { apply in_map_iff in Hin2. destruct Hin2 as [pm [E Hpm]].
-               unfold digits_ok in Hd. rewrite Forall_forall in Hd. specialize (Hd pm Hpm). lia. }
+               unfold digits_inr in Hd. rewrite Forall_forall in Hd. rewrite <- E. exact (inr_pos _ _ (Hd pm Hpm)). }
              rewrite add_multiple_mod; [apply Hr; exact Hin|exact Hpos|].
              apply prodl_divide. exact Hin2.
           -- constructor; [|constructor]. cbn [fst snd]. apply mod_eq_divide; [exact Hpi|exact Hcong].
@@ -286,7 +289,55 @@ Definition Garner_post (ps rs mix : list Z) : Prop :=
   0 <= V < prodl ps /\
   Forall2 (fun p r => V mod p = r mod p) ps rs.
 
+(* the same with the range of the representatives (inr) and of the value (vr) left open: canonical and balanced domains *)
+Definition Garner_postG (inr vr : Z -> Z -> Prop) (ps rs mix : list Z) : Prop :=
+  let V := MixedRadixToRing ps mix in
+  length mix = length ps /\
+  Forall2 (fun m p => inr p m) mix ps /\
+  vr (prodl ps) V /\
+  Forall2 (fun p r => V mod p = r mod p) ps rs.
+
 Section Whole.
+  Variable hor : Z -> list (Z * Z) -> Z.
+  Variable dig : Z -> Z -> Z -> Z -> Z.
+  Variable inr vr : Z -> Z -> Prop.
+  Hypothesis inr_pos : forall p m, inr p m -> 0 < p.
+  Hypothesis range_ok : forall l, Forall (fun pm => inr (fst pm) (snd pm)) l -> vr (prodp l) (mrval l).
+  Hypothesis hor_ok : forall pi done, 0 < pi -> hor pi done mod pi = mrval (rev done) mod pi.
+  Hypothesis dig_ok : forall pi ri tmp cki V P, 0 < pi -> tmp mod pi = V mod pi -> (pi | cki * P - 1) ->
+      inr pi (dig pi ri tmp cki) /\ (pi | (V + P * dig pi ri tmp cki) - ri).
+
+  Lemma garner_whole_g : forall p0 ps r0 rs cks,
+    length rs = length ps -> length cks = length ps -> inr p0 r0 ->
+    todo_ok p0 (todo_of ps rs cks) ->
+    Garner_postG inr vr (p0 :: ps) (r0 :: rs)
+      (map snd (rev (mr_loop_gen hor dig [(p0, r0)] (todo_of ps rs cks)))).
+  Proof.
+    intros p0 ps r0 rs cks Hlen Hlck Hr0 Htodo.
+    set (todo := todo_of ps rs cks) in *.
+    set (final := mr_loop_gen hor dig [(p0, r0)] todo).
+    assert (Hfsttodo : map fst todo = combine ps rs).
+    { unfold todo, todo_of. apply map_fst_combine. rewrite combine_length. lia. }
+    assert (HI : Inv inr final ([(p0, r0)] ++ map fst todo)).
+    { apply (mr_loop_gen_inv hor dig inr inr_pos hor_ok dig_ok).
+      - unfold Inv. cbn [rev app map fst mrval snd]. repeat split.
+        + constructor; [cbn [fst snd]; exact Hr0|constructor].
+        + constructor; [|constructor]. cbn [fst snd]. f_equal. ring.
+      - unfold prodp. cbn [map fst prodl fold_right]. rewrite Z.mul_1_r. exact Htodo. }
+    rewrite Hfsttodo in HI. destruct HI as (Hp & Hd & Hr).
+    assert (Hprimes : map fst (rev final) = p0 :: ps).
+    { rewrite Hp. cbn [app map fst]. f_equal. apply map_fst_combine. lia. }
+    unfold Garner_postG. rewrite <- Hprimes. rewrite MixedRadixToRing_spec.
+    assert (Hd' : digits_inr inr (rev final)) by (apply Forall_rev; exact Hd).
+    repeat split.
+    - rewrite !map_length. reflexivity.
+    - apply Forall_pairs_Forall2 with (R := fun m p => inr p m). exact Hd'.
+    - apply (range_ok _ Hd').
+    - rewrite Hprimes. apply Forall_combine_Forall2; [cbn [length]; lia|]. exact Hr.
+  Qed.
+End Whole.
+
+Section WholeCanonical.
   Variable hor : Z -> list (Z * Z) -> Z.
   Variable dig : Z -> Z -> Z -> Z -> Z.
   Variable ckprod : Z -> list Z -> Z.
@@ -301,30 +352,14 @@ Section Whole.
       (map snd (rev (mr_loop_gen hor dig [(p0, r0)] (todo_of ps rs (ck_loop ckprod [p0] ps))))).
   Proof.
     intros p0 ps r0 rs [Hpos Hc] Hlen Hr0.
-    set (todo := todo_of ps rs (ck_loop ckprod [p0] ps)).
-    set (final := mr_loop_gen hor dig [(p0, r0)] todo).
     inversion Hpos as [|? ? Hp0 Hpos']; subst. destruct Hc as [Hc0 Hc].
-    assert (Hfsttodo : map fst todo = combine ps rs).
-    { unfold todo, todo_of. apply map_fst_combine. rewrite combine_length, ck_loop_length. lia. }
-    assert (HI : Inv final ([(p0, r0)] ++ map fst todo)).
-    { apply (mr_loop_gen_inv hor dig hor_ok dig_ok).
-      - unfold Inv. cbn [rev app map fst mrval snd]. repeat split.
-        + constructor; [cbn [fst snd]; exact Hr0|constructor].
-        + constructor; [|constructor]. cbn [fst snd]. f_equal. ring.
-      - unfold prodp. cbn [map fst]. apply ck_loop_ok; auto. }
-    rewrite Hfsttodo in HI. destruct HI as (Hp & Hd & Hr).
-    assert (Hprimes : map fst (rev final) = p0 :: ps).
-    { rewrite Hp. cbn [app map fst]. f_equal. apply map_fst_combine. lia. }
-    unfold Garner_post. rewrite <- Hprimes. rewrite MixedRadixToRing_spec.
-    assert (Hd' : digits_ok (rev final)) by (apply Forall_rev; exact Hd).
-    repeat split.
-    - rewrite !map_length. reflexivity.
-    - apply Forall_pairs_Forall2 with (R := fun m p => 0 <= m < p). exact Hd'.
-    - apply digits_range; exact Hd'.
-    - apply (digits_range _ Hd').
-    - rewrite Hprimes. apply Forall_combine_Forall2; [cbn [length]; lia|]. exact Hr.
+    apply (garner_whole_g hor dig (fun p m => 0 <= m < p) (fun P V => 0 <= V < P)); auto.
+    - intros; lia.
+    - exact digits_range.
+    - apply ck_loop_length.
+    - replace p0 with (prodl [p0]) at 1 by (cbn; lia). apply ck_loop_ok; auto.
   Qed.
-End Whole.
+End WholeCanonical.
 
 Theorem RnsToMixedRadix_int_spec : forall ps rs,
   ps <> [] -> good_moduli ps -> length rs = length ps -> 0 <= hd 0 rs < hd 1 ps ->
